@@ -285,3 +285,14 @@ claim("C37", IRJ,
       "predecessor of the phi's block. UnSSADiGraph's output is run against the original graph on IRMachine.tla from several "
       "initial states: same ordered writes, same exit, same value of every register and flag (through shadow variables).",
       "TLC; x86-32 functions without calls; graphs up to ~25 blocks", "DESIGN.md 5/C37", "IRJudge")
+
+claim("C38", IRJ,
+      "IRJudge.tla states the three analyses by their path definitions on the graph of program points: a definition reaches a point "
+      "iff some execution from just after it to the point does not redefine the variable (FlowNoDef, a TLC reachability fixpoint); a "
+      "def-use link exists iff the definition reaches an assignment reading the variable; a variable is live at a point iff some "
+      "execution from it reads the variable before writing it (or leaves the function with an ABI output register unwritten). "
+      "ReachingDefinitions, DiGraphDefUse(deref_mem) and DiGraphLivenessIRA results on synthetic graphs (3 variables, <= 6 blocks, "
+      "loops, exit-less loops, unreachable blocks, swaps and cross-dependent parallel assignments) and on lifted random x86-32 "
+      "functions are exported and TLC requires equality (both inclusions).",
+      "TLC; register (identifier) facts only; one recorded known finding (liveness of blocks that cannot reach an exit)",
+      "DESIGN.md 5/C38", "IRJudge")
